@@ -57,6 +57,6 @@ def pickLoop (size : Nat → Nat) (maxGp : Nat) (levels : List (List File)) (lo 
 /-- `Version::pick_level_for_memtable_output` -/
 def pickLevel (size : Nat → Nat) (maxFileSize : Nat) (levels : List (List File)) (lo hi : Bytes) : Nat :=
   if hasOverlapInLevel levels 0 lo hi then 0
-  else pickLoop size (maxFileSize * 10) levels lo hi Rain.Gen.MAX_MEM_COMPACT_LEVEL 0
+  else pickLoop size (maxFileSize * Rain.Gen.GRANDPARENT_OVERLAP_MULTIPLIER) levels lo hi Rain.Gen.MAX_MEM_COMPACT_LEVEL 0
 
 end Rain.FlushLevel
